@@ -14,7 +14,7 @@ structure Context where
   interfaceId : String
   parserId : String
   ruleset : List Rule
-  deriving Repr, Inhabited
+  deriving DecidableEq, Repr, Inhabited
 
 /-- the BEST loop: rules are matched lazily, each match is compressed at once, the first shortest kept -/
 def bestLoop (p : Packet) : List Rule → Option ABuf → Py (Option ABuf)
